@@ -186,18 +186,18 @@ class IWalker(Walker):
                             e2[d["local"]] = sp.result
                             for L in muts:
                                 e2[L] = ("after", env.get(L) or b._trace_local(L, 0, frozenset()), "<local>" + hb.key)
-                            self._walk(t["target"], e2, na, no, events + list(sp.events), blocks, onpath)
+                            self._walk(t["target"], e2, na, no, events + list(sp.events) + [("ret", c, [sp.result], bi)], blocks, onpath)
                         return
                     self.opaque_local.add(hb.key)
                 if d is not None and not d["proj"]:
                     env = dict(env)
-                    env[d["local"]] = ("call", c, args, bi)
+                    env[d["local"]] = ("call", c, args, bi, b.key) if c else ("call", c, args, bi)
                     env.pop(("mut", d["local"]), None)
                 if muts:
                     env = dict(env)
                     name = (c.get("path") if c else None) or "<indirect>"
                     for L in muts:
-                        env[L] = ("after", env.get(L) or b._trace_local(L, 0, frozenset()), name)
+                        env[L] = ("after", env.get(L) or b._trace_local(L, 0, frozenset()), name, list(args))
                 if t.get("target") is None:
                     return
                 bi = t["target"]
